@@ -24,12 +24,17 @@ pub struct Case {
     /// stays well defined; `MinScored` documents that NaN scores order last)
     #[serde(default)]
     pub nan: bool,
+    /// with `nan`: additionally every k-th edge (k = 2 + salt % 3) carries NaN, bridges included.  The
+    /// minimum is then undefined; what is still promised is the structure: nodes first, every edge an
+    /// edge of the graph, no cycle, exactly |V| - c edges (Prim: a spanning tree of the first component)
+    #[serde(default)]
+    pub nan_anywhere: bool,
 }
 
 pub fn strategy(tier: Tier) -> BoxedStrategy<Case> {
     let (maxn, maxm) = if tier == Tier::Quick { (9, 22) } else { (16, 50) };
     (raw_graph(0, maxn, maxm, None), any::<u8>(), any::<u8>(), 0u8..3, any::<bool>(), 0u8..4)
-        .prop_map(|(g, enc, salt, wmode, float, nan)| Case { g, enc, salt, wmode, float, nan: float && nan == 0 })
+        .prop_map(|(g, enc, salt, wmode, float, nan)| Case { g, enc, salt, wmode, float, nan: float && nan == 0, nan_anywhere: float && nan == 0 && salt % 2 == 1 })
         .boxed()
 }
 
@@ -68,7 +73,11 @@ impl W for f64 {
         }
     }
     fn back(&self) -> i64 {
-        (*self * 4.0) as i64
+        if self.is_nan() {
+            NAN_MARK as i64
+        } else {
+            (*self * 4.0) as i64
+        }
     }
 }
 
@@ -236,6 +245,8 @@ where
 {
     let a = v.a;
     let n = a.n;
+    // NaN on an edge that can be a forest edge: the minimum is undefined, only the structure is checked
+    let nan_any = a.edges.iter().any(|e| e.2 == NAN_MARK && e.0 != e.1);
     // expected node order = node_references order
     let order: Vec<usize> = g.node_references().map(|r| v.label(r.id(), "node_references")).collect::<Result<_, _>>()?;
     let all = vec![true; n];
@@ -260,7 +271,9 @@ where
     ensure_eq!(nodes, order, "C12/kruskal-nodes", "min_spanning_tree: node elements vs node_references order");
     let (total, _) = check_forest(a, &order, &edges, "min_spanning_tree")?;
     ensure_eq!(edges.len(), n - ncomp, "C12/kruskal-edge-count", "min_spanning_tree: number of edges (|V|-c)");
-    ensure_eq!(total, best, "C12/kruskal-weight", "min_spanning_tree: total weight vs minimum");
+    if !nan_any {
+        ensure_eq!(total, best, "C12/kruskal-weight", "min_spanning_tree: total weight vs minimum");
+    }
     // the graph built from the element stream
     let built: UnGraph<NW, E> = UnGraph::from_elements(stream);
     ensure_eq!(built.node_count(), n, "C12/from_elements-nodes", "from_elements(min_spanning_tree): node count");
@@ -269,7 +282,7 @@ where
         ensure_eq!(wl(&built[NodeIndex::new(i)]), *l, "C12/from_elements-node-weight", "from_elements: weight of node {i}");
     }
     for (e, (s, t, w)) in built.edge_references().zip(edges.iter()) {
-        ensure!(e.source().index() == *s && e.target().index() == *t && e.weight() == w, "C12/from_elements-edge", "from_elements: edge {:?} vs element ({s},{t},{w:?})", (e.source(), e.target(), e.weight()));
+        ensure!(e.source().index() == *s && e.target().index() == *t && e.weight().back() == w.back(), "C12/from_elements-edge", "from_elements: edge {:?} vs element ({s},{t},{w:?})", (e.source(), e.target(), e.weight()));
     }
 
     // ---- Prim (undirected graphs) ----
@@ -289,9 +302,11 @@ where
             for l in 0..n {
                 ensure_eq!(comp[l] == comp[first], inside[l], "C12/prim-span", "min_spanning_tree_prim: node {l} connected to the first node");
             }
-            ensure_eq!(total, best1, "C12/prim-weight", "min_spanning_tree_prim: total weight vs minimum for the first node's component");
-            if ncomp == 1 {
-                ensure_eq!(total, best, "C12/prim-weight", "min_spanning_tree_prim on a connected graph vs Kruskal optimum");
+            if !nan_any {
+                ensure_eq!(total, best1, "C12/prim-weight", "min_spanning_tree_prim: total weight vs minimum for the first node's component");
+                if ncomp == 1 {
+                    ensure_eq!(total, best, "C12/prim-weight", "min_spanning_tree_prim on a connected graph vs Kruskal optimum");
+                }
             }
         } else {
             ensure!(edges.is_empty(), "C12/prim-edge-count", "edges on an empty graph");
@@ -319,6 +334,15 @@ pub fn run(c: &Case) -> Outcome {
         let v = (c.salt as usize / 7) % n;
         a0.edges.insert(at, (v, v, NAN_MARK));
         obs.label("NaN self-loops");
+        if c.nan_anywhere {
+            let k = 2 + c.salt as usize % 3;
+            for (i, e) in a0.edges.iter_mut().enumerate() {
+                if i % k == 0 {
+                    e.2 = NAN_MARK;
+                }
+            }
+            obs.label("NaN on arbitrary edges (structure only)");
+        }
     }
     let simple = super::c10::simplified_min(&a0);
     let a = if enc >= 2 { &simple } else { &a0 };
